@@ -304,10 +304,12 @@ def check_wang(ctx, c):
         key = "x=%d_%d" % tuple(p["x"])
         ctx.case(("wang", key))
         f = float(np.asarray(tp.model.forward(x)).ravel()[0])
-        if f != p["F"]:
+        # integer inputs, integer values: compared to rounding (how the cubic is evaluated - pow, Horner - is not fixed)
+        if not abs(f - p["F"]) <= 1e-12 * max(1.0, abs(p["F"])):
             ctx.mismatch("wang/forward/" + key, {"kind": "wang", "pt": p}, "WangCubic forward is not the cubic", p["F"], f)
         g = np.asarray(tp.model.gradient(np.array([1.0]), x), dtype=float).ravel()
-        if not np.array_equal(g, np.array(p["J"], dtype=float)):
+        J = np.array(p["J"], dtype=float)
+        if g.shape != J.shape or not np.allclose(g, J, rtol=1e-12, atol=1e-12):
             ctx.mismatch("wang/jacobian/" + key, {"kind": "wang", "pt": p}, "WangCubic gradient is not the derivative of the cubic", p["J"], g)
 
 
@@ -562,15 +564,37 @@ def check_problem(ctx, c, legacy_match):
     model, data, info = comps
     # SameModel / SameData: reference identities listed by the spec
     for a, b in c["same"]:
-        if _resolve(tp, comps, a) is not _resolve(tp, comps, b):
-            ctx.mismatch(sig("same/%s=%s" % (a, b)), case, "%s and %s are not the same object" % (a, b))
+        oa, ob = _resolve(tp, comps, a), _resolve(tp, comps, b)
+        if oa is ob:
+            continue
+        if a.endswith(".data") and b.endswith(".data"):
+            # "the same data": an equal-valued array with the same geometry handed out as a copy is the same data
+            # (nothing observable distinguishes it); recorded, not judged
+            try:
+                va, vb = np.asarray(oa, dtype=float), np.asarray(ob, dtype=float)
+                same_val = va.shape == vb.shape and np.array_equal(va, vb) and \
+                    _same_geom(getattr(oa, "geometry", None), getattr(ob, "geometry", None))
+            except Exception:       # noqa: BLE001
+                same_val = False
+            if same_val:
+                ctx.observations.setdefault("data_handed_out_as_equal_copy", {})["%s=%s" % (a, b)] = True
+                continue
+        ctx.mismatch(sig("same/%s=%s" % (a, b)), case, "%s and %s are not the same object" % (a, b))
     # info record
     for fld, want in c["info"].items():
         have = getattr(info, fld, None) is not None
         if fld == "infoString":
             if have and (p.startswith("Deconvolution") or p == "WangCubic"):
                 s = str(info.infoString)
-                if str(_q(c["level"])) not in s:
+                # the stated level must appear as a number, however it is formatted (2, 2.0, 2.00, 5e-1 ...)
+                import re
+                nums = []
+                for tok in re.findall(r"(?<![\w.])[-+]?(?:\d+\.?\d*|\.\d+)(?:[eE][-+]?\d+)?(?![\w])", s):
+                    try:
+                        nums.append(float(tok))
+                    except ValueError:
+                        pass
+                if not any(abs(v - _q(c["level"])) <= 1e-9 * max(1.0, abs(v)) for v in nums):
                     ctx.mismatch(sig("infostring"), case, "infoString does not state the noise level", str(_q(c["level"])), s)
             continue
         if have != want:
@@ -804,11 +828,13 @@ def run(ctx):
     # 1. the specifications, model-checked
     rc = ctx.tlc("Conv", cfg="Conv.%s.cfg" % tier, workers=16, timeout=1500)
     ctx.model_must_hold(rc, "Conv")
+    _tlc.cleanup(rc)            # (the emitted cases stay in memory; nothing is left under .work if the replay stops early)
     # (every emitted "problem" case is a final state reached through all seven actions, so their presence - checked in
     #  replay_models - is the non-vacuity of the actions; per-action coverage is measured in the thorough tier)
     rt = ctx.tlc("TestProblems", cfg="TestProblems.%s.cfg" % tier, workers=16, timeout=1500, extra_modules=("Conv.tla",),
                  require_actions=ACTIONS if tier == "thorough" else None)
     ctx.model_must_hold(rt, "TestProblems")
+    _tlc.cleanup(rt)
     # 2. named deviations: TLC must return a counterexample to the named invariant (design-level explanation + non-vacuity)
     for spec, cfg, inv, extra in DEVIATIONS:
         rd = ctx.tlc(spec, cfg=cfg, workers=4, timeout=600, extra_modules=extra, expect_violation=True)
@@ -840,8 +866,6 @@ def run(ctx):
                         "scripted numpy.random.{randn, normal}: first request returns the spec's Z, further requests zeros",
                         "Heat1D: number of time steps and method read from the public model.pde.time_steps / .method",
                         "SNR option: only 'one scalar sigma shared by data generation and likelihood' is asserted"]
-    _tlc.cleanup(rc)
-    _tlc.cleanup(rt)
 
 
 _REPLAY_CACHE = {}
